@@ -34,6 +34,8 @@ type c13Completion struct {
 	Finish       string    `json:"finish"`
 	UsageChunk   bool      `json:"usage_chunk,omitempty"`    // usage arrives in a final chunk with no choices
 	TextWithTool bool      `json:"text_with_tool,omitempty"` // text and the opening of a tool call share a delta
+	SameIndex    bool      `json:"same_index,omitempty"`     // Ollama style: every tool call complete in one fragment, all with index 0
+	NoUsage      bool      `json:"no_usage,omitempty"`       // the backend reports no token counts at all
 	Prompt       int       `json:"prompt_tokens"`
 	Completion   int       `json:"completion_tokens"`
 	Interleave   bool      `json:"interleave"` // tool fragments of different calls interleaved (only no-crash/termination asserted)
@@ -43,7 +45,7 @@ type c13Completion struct {
 var c13Words = []string{"hello", " world", "", " ünïcödé ✓", " 日本語のテキスト", "\n\nnew para", " \"quoted\" \\ back", " emoji 🎉🚀", " data: not a field", "\t", " [DONE]", " </s>"}
 
 func c13Args(r R) string {
-	switch r.Pick(6) {
+	switch r.Pick(7) {
 	case 0:
 		return `{}`
 	case 1:
@@ -53,6 +55,11 @@ func c13Args(r R) string {
 	case 3:
 		big := strings.Repeat("lorem ipsum ", 200+r.Pick(300))
 		b, _ := json.Marshal(map[string]any{"text": big, "k": 1.5})
+		return string(b)
+	case 5:
+		// a few hundred KiB of arguments: delivered in one fragment this is one very long SSE line
+		huge := strings.Repeat("0123456789abcdef", (100<<10)/16+r.Pick((200<<10)/16))
+		b, _ := json.Marshal(map[string]any{"blob": huge})
 		return string(b)
 	case 4:
 		// integers beyond 2^53 and long decimals must come through digit for digit
@@ -115,6 +122,7 @@ func c13Gen(r R) c13Completion {
 		// documented Anthropic counterpart, so only streamed == buffered is asserted for it
 		c.Finish = pickS(r, []string{"stop", "tool_calls", "length", "content_filter"})
 	}
+	c.SameIndex = nTools > 0 && r.Chance(200)
 	c.UsageChunk = r.Chance(400)
 	c.TextWithTool = r.Chance(300)
 	c.Prompt, c.Completion = 1+r.Pick(5000), r.Pick(3000)
@@ -182,6 +190,14 @@ func c13SSE(r R, c c13Completion) string {
 		var fr []frag
 		first := map[string]any{"index": idx, "id": p.ID, "type": "function", "function": map[string]any{"name": p.Name, "arguments": ""}}
 		argPieces := cutRunes(r, p.Args, pickS(r, []int{1, 5, 40, 100000}))
+		if len(p.Args) > 50000 {
+			argPieces = cutRunes(r, p.Args, 1<<20) // hundreds of KiB travel in a few long lines, not in a million deltas
+		}
+		if c.SameIndex {
+			first["index"] = 0
+			first["function"].(map[string]any)["arguments"] = p.Args
+			argPieces = nil
+		}
 		if r.Chance(300) && len(argPieces) > 0 {
 			first["function"].(map[string]any)["arguments"] = argPieces[0]
 			argPieces = argPieces[1:]
@@ -214,7 +230,9 @@ func c13SSE(r R, c c13Completion) string {
 		}
 	}
 	usage := map[string]any{"prompt_tokens": c.Prompt, "completion_tokens": c.Completion, "total_tokens": c.Prompt + c.Completion}
-	if c.UsageChunk {
+	if c.NoUsage {
+		emit(map[string]any{}, c.Finish, nil)
+	} else if c.UsageChunk {
 		// stream_options.include_usage: the finish chunk carries no usage, a last chunk with no choices does
 		emit(map[string]any{}, c.Finish, nil)
 		sb.WriteString("data: " + q(map[string]any{"id": "chatcmpl-x", "object": "chat.completion.chunk", "created": 1, "model": "backend-model", "choices": []any{}, "usage": usage}) + "\n\n")
@@ -263,6 +281,9 @@ func (propC13) Gen(seed uint64, tier string, idx int) *Plan {
 	if (p.Net.MaxSegment <= 2 || p.Stack.StreamBuf <= 3) && len(sse) > 6000 {
 		p.Net.MaxSegment, p.Stack.StreamBuf = 100, 512
 	}
+	if len(sse) > 100000 {
+		p.Net.MaxSegment, p.Stack.StreamBuf = 65536, 8192
+	}
 	ep := endpoint(1, pickS(r, []string{"sglang", "openai-compatible", "lemonade"}), 100)
 	ep.Models = []string{"m1"}
 	stream := Resp{Status: 200, CType: "text/event-stream", Framing: pickS(r, []string{"chunked", "chunked", "close"})}
@@ -292,8 +313,14 @@ func (propC13) Gen(seed uint64, tier string, idx int) *Plan {
 		"n1": {stream},
 		"n2": {{Status: 200, CType: "application/json", Chunks: []Chunk{{Data: c13Buffered(comp)}}}},
 	}
+	// afterwards, on the same translator: a short stream whose backend reports no usage at all
+	plain := c13Completion{Parts: []c13Part{{Type: "text", Text: "ok"}}, Finish: "stop", NoUsage: true}
+	ep.ByNonce["n3"] = []Resp{{Status: 200, CType: "text/event-stream", Framing: "chunked", Chunks: []Chunk{{Data: c13SSE(r, plain)}}}}
 	ep.Default = Resp{Kind: "llm", Status: 200}
 	p.Endpoints = []EndpointCfg{ep}
+	defer func() {
+		p.Ops = append(p.Ops, ClientOp{ID: 3, At: 45 * time.Second, Method: "POST", Path: "/olla/anthropic/v1/messages", Body: BodySpec{Kind: "anthropic", N: 20, Model: "m1", Stream: true}, Deadline: 30 * time.Second})
+	}()
 	p.Ops = []ClientOp{
 		{ID: 1, At: 0, Method: "POST", Path: "/olla/anthropic/v1/messages", Body: BodySpec{Kind: "anthropic", N: 20, Model: "m1", Stream: true}, Deadline: 40 * time.Second},
 		{ID: 2, At: r.Dur(0, 5*time.Millisecond), Method: "POST", Path: "/olla/anthropic/v1/messages", Body: BodySpec{Kind: "anthropic", N: 20, Model: "m1"}, Deadline: 40 * time.Second},
@@ -312,7 +339,7 @@ func (propC13) Gen(seed uint64, tier string, idx int) *Plan {
 	var asMap map[string]any
 	_ = json.Unmarshal(b, &asMap)
 	p.Extra = map[string]any{"completion": asMap}
-	p.Deadline = 90 * time.Second
+	p.Deadline = 120 * time.Second
 	p.Settle = 100 * time.Millisecond
 	return p
 }
@@ -553,6 +580,14 @@ func (propC13) Check(r *Run) []Violation {
 			cs = c
 		} else if c.OpID == 2 {
 			cb = c
+		}
+	}
+	// the follow-up stream whose backend reports no usage: its counts are its own (zero), not those of an earlier stream
+	for _, c := range r.Results {
+		if c.OpID == 3 && c.Status == 200 && !c.TimedOut {
+			if p3 := c13ParseStream(c.Body); p3.err == "" && (p3.in != 0 || p3.out != 0) {
+				add("C13/usage-from-another-stream", "a stream whose backend sent no usage reported input=%d output=%d (the stream before it on this translator had prompt=%d completion=%d)", p3.in, p3.out, comp.Prompt, comp.Completion)
+			}
 		}
 	}
 	if cs == nil {
